@@ -157,8 +157,8 @@ def run_cvc5(smt2, timeout_s=20):
 
 def verify_function(world, func_name, setup, run, ensures, props, contracts=None, allow_raises=(),
                     describe_args=None, check_frame=True, cover=None, timeout_ms=10000, prop_map=None):
-    """ensures: list of (clause_name, fn(args, result) -> Bool term, [property ids])
-    returns list of Obligation"""
+    """ensures(it, args, result) -> list of (clause name, [property ids], Bool term)
+    returns (list of Obligation, info)"""
     t0 = time.time()
     results, stats = explore(world, setup, run, contracts)
     obs = {}
@@ -170,8 +170,6 @@ def verify_function(world, func_name, setup, run, ensures, props, contracts=None
 
     safety = ob("no-exceptional-exit", (prop_map or {}).get("safety", props))
     frame = ob("frame", (prop_map or {}).get("frame", props)) if check_frame else None
-    for name, fn, pids in ensures:
-        ob(name, pids)
     covered = {} if cover is None else {n: False for n, _ in cover}
     for r in results:
         it = r.it
@@ -208,16 +206,18 @@ def verify_function(world, func_name, setup, run, ensures, props, contracts=None
                     frame.status = "failed"
                     frame.detail = "%s (line %s)" % (fe[0][1], fe[0][2])
                     frame.cex = make_cex(it, r, it.solver.model(), describe_args)
-        for name, fn, pids in ensures:
-            o = obs[name]
+        from spec import views as _views
+        _views.CURRENT_IT[0] = it
+        try:
+            clauses = ensures(it, r.args, r.value)
+        except Unsupported as e:
+            clauses = []
+            safety.status = "unsupported"
+            safety.detail = "contract: %s" % e
+        for name, pids, goal in clauses:
+            o = ob(name, pids)
             o.paths += 1
             if o.status == "failed":
-                continue
-            try:
-                goal = fn(r.args, r.value)
-            except Unsupported as e:
-                o.status = "unsupported"
-                o.detail = "clause: %s" % e
                 continue
             verdict, model = check_valid(it, goal, o, timeout_ms, run_cvc5)
             if verdict == "sat":
@@ -227,6 +227,7 @@ def verify_function(world, func_name, setup, run, ensures, props, contracts=None
             elif verdict == "unknown" and o.status == "discharged":
                 o.status = "undecided"
                 o.detail = "solver returned unknown"
+        _views.CURRENT_IT[0] = None
         if cover is not None:
             for n, cfn in cover:
                 if not covered[n]:
